@@ -23,7 +23,9 @@ const stringAxioms = `
 (assert (forall ((c Int)) (! (=> (and (<= 0 c) (< c 128)) (and (= (len (chr c)) 1) (= (at (chr c) 0) c))) :pattern ((chr c)))))
 (assert (forall ((c Int)) (! (=> (not (and (<= 0 c) (< c 128))) (and (>= (len (chr c)) 2) (<= (len (chr c)) 4) (>= (at (chr c) 0) 128))) :pattern ((chr c)))))
 (assert (forall ((h (Array Addr Int)) (b Slice)) (! (=> (>= (slen b) 0) (= (len (bytes2str h b)) (slen b))) :pattern ((bytes2str h b)))))
-(assert (forall ((h (Array Addr Int)) (b Slice) (k Int)) (! (=> (and (<= 0 k) (< k (slen b))) (= (at (bytes2str h b) k) (select h (selem b k)))) :pattern ((at (bytes2str h b) k)))))
+; NOTE the guard on the cell value: without it this axiom contradicts the range axiom for at below (take any array
+; holding a value outside 0..255) - the background theory was inconsistent until this was found (DESIGN.md 7.6)
+(assert (forall ((h (Array Addr Int)) (b Slice) (k Int)) (! (=> (and (<= 0 k) (< k (slen b)) (<= 0 (select h (selem b k))) (<= (select h (selem b k)) 255)) (= (at (bytes2str h b) k) (select h (selem b k)))) :pattern ((at (bytes2str h b) k)))))
 (assert (forall ((h1 (Array Addr Int)) (h2 (Array Addr Int)) (b Slice)) (! (=> (forall ((k Int)) (=> (and (<= 0 k) (< k (slen b))) (= (select h1 (selem b k)) (select h2 (selem b k))))) (= (bytes2str h1 b) (bytes2str h2 b))) :pattern ((bytes2str h1 b) (bytes2str h2 b)))))
 (assert (forall ((s Str)) (! (>= (len s) 0) :pattern ((len s)))))
 (assert (forall ((s Str) (k Int)) (! (and (<= 0 (at s k)) (<= (at s k) 255)) :pattern ((at s k)))))
@@ -273,28 +275,15 @@ type solverSpec struct {
 	args func(file string, timeoutS int) []string
 }
 
-// Solver configurations. z3 5.1.0 gave WRONG "unsat" answers on small satisfiable queries, with either arithmetic core,
-// always through arithmetic equality propagation (experiments/z3-5.1.0-unsound.smt2: wrong with the default core,
-// unknown with smt.arith.solver=2; experiments/z3-5.1.0-legacy-arith-unsound.smt2: the other way round; both unknown
-// with smt.arith.propagate_eqs=false). Both were found because a deliberately broken variant verified. So:
-//   stage 1: z3 with smt.arith.propagate_eqs=false races cvc5; "unsat" from either discharges;
-//   stage 2 (only if stage 1 decided nothing): z3 with the default core AND z3 with the legacy core, and the goal is
-//            discharged only if BOTH say "unsat" (the two wrong answers seen never coincided).
-// z3 4.8.12 is not used at all (wrong unsat on experiments/z3-4.8.12-unsound.smt2).
+// Solver portfolio: z3 5.1.0 (z3-new) and cvc5 race per obligation; z3 4.8.12 joins in the thorough tier and in the
+// second-chance pass. (For a while all three z3 configurations were suspected of wrong "unsat" answers; the cause
+// was an inconsistency in the background axioms - see stringAxioms above and DESIGN.md 7.6 - and the solvers were right.)
 var solvers = []solverSpec{
-	{"z3-new", func(f string, t int) []string {
-		return []string{"z3-new", fmt.Sprintf("-T:%d", t), "smt.arith.propagate_eqs=false", f}
-	}},
+	{"z3-new", func(f string, t int) []string { return []string{"z3-new", fmt.Sprintf("-T:%d", t), f} }},
 	{"cvc5", func(f string, t int) []string {
 		return []string{"cvc5", fmt.Sprintf("--tlimit=%d", t*1000), "-q", f}
 	}},
-}
-
-var z3Confirm = []solverSpec{
-	{"z3-new/default-core", func(f string, t int) []string { return []string{"z3-new", fmt.Sprintf("-T:%d", t), f} }},
-	{"z3-new/legacy-core", func(f string, t int) []string {
-		return []string{"z3-new", fmt.Sprintf("-T:%d", t), "smt.arith.solver=2", f}
-	}},
+	{"z3", func(f string, t int) []string { return []string{"z3", fmt.Sprintf("-T:%d", t), f} }},
 }
 
 type solveResult struct {
@@ -363,34 +352,6 @@ func solveOne(dir string, idx int, query string, timeoutS int, nsolvers int) sol
 			return r
 		}
 		last = r
-	}
-	// stage 2: both remaining z3 configurations have to agree on "unsat"
-	if nerr < n {
-		ch2 := make(chan solveResult, len(z3Confirm))
-		for _, sp := range z3Confirm {
-			go func(sp solverSpec) { ch2 <- runSolver(ctx, sp, file, timeoutS) }(sp)
-		}
-		nunsat := 0
-		var t2 float64
-		for range z3Confirm {
-			r := <-ch2
-			if r.time > t2 {
-				t2 = r.time
-			}
-			outs = append(outs, fmt.Sprintf("[%s %.2fs] %s", r.solver, r.time, firstLines(r.out, 3)))
-			switch r.status {
-			case "unsat":
-				nunsat++
-			case "sat":
-				r.time += total
-				cancel()
-				return r
-			}
-		}
-		if nunsat == len(z3Confirm) {
-			return solveResult{status: "unsat", solver: "z3-new(both cores)", time: total + t2}
-		}
-		total += t2
 	}
 	last.status = "unknown"
 	if nerr == n {
@@ -592,6 +553,7 @@ func (w *World) discharge(jobs []*job, timeoutS, workers, nsolvers int, keepDir 
 	if keepDir != "" {
 		os.MkdirAll(keepDir, 0o755)
 		nfail := map[string]int{}
+		nall := map[string]int{}
 		for _, j := range jobs {
 			if j.o.Status == "failed" || j.o.Status == "cover-vacuous" {
 				// one file per failed instance (an obligation site reached along several paths has several)
@@ -599,6 +561,8 @@ func (w *World) discharge(jobs []*job, timeoutS, workers, nsolvers int, keepDir 
 				os.WriteFile(filepath.Join(keepDir, fmt.Sprintf("%s.fail%d.smt2", sanitize(j.o.Name), nfail[j.o.Name])), []byte(j.query), 0o644)
 			}
 			if os.Getenv("GOVC_KEEPALL") != "" {
+				nall[j.o.Name]++
+				os.WriteFile(filepath.Join(keepDir, fmt.Sprintf("%s.inst%d.%s.smt2", sanitize(j.o.Name), nall[j.o.Name], sanitize(j.o.Solver))), []byte(j.query), 0o644)
 				os.WriteFile(filepath.Join(keepDir, sanitize(j.o.Name)+".smt2"), []byte(j.query), 0o644)
 				if j.light != "" && os.Getenv("GOVC_KEEPALL") != "" {
 					os.WriteFile(filepath.Join(keepDir, sanitize(j.o.Name)+".light.smt2"), []byte(j.light), 0o644)
@@ -656,6 +620,29 @@ func (w *World) buildAxiomQueries(gens []*Gen) map[string]string {
 		return stripPatterns(sb.String())
 	}
 	out["strings"] = mk("", "")
+	// Intended-model probes: small ground situations that exist in every real execution and therefore must stay
+	// satisfiable together with the background axioms. An axiom that is true of real strings but quantifies over too
+	// much (e.g. over heap arrays with arbitrary cell values) shows up here as "unsat" even when the solvers cannot
+	// refute the bare axiom set within the time limit - the way the bytes2str/at inconsistency stayed hidden.
+	probes := map[string]string{
+		"wide-cell-under-byte-slice": "(declare-const pr_h (Array Addr Int))\n(declare-const pr_b Slice)\n(assert (= (slen pr_b) 2))\n(assert (= (select pr_h (selem pr_b 0)) 1000))\n(assert (= (select pr_h (selem pr_b 1)) (- 5)))\n(assert (>= (at (bytes2str pr_h pr_b) 0) 0))\n(assert (>= (at (bytes2str pr_h pr_b) 1) 0))\n(assert (>= (len (bytes2str pr_h pr_b)) 0))\n",
+		"long-concatenation":         "(declare-const pr_s Str)\n(declare-const pr_t Str)\n(assert (= (len pr_s) 4611686018427387904))\n(assert (= (len pr_t) 4611686018427387904))\n(assert (>= (len (cat pr_s pr_t)) 0))\n(assert (>= (at (cat pr_s pr_t) 0) 0))\n",
+		"negative-slice-length":      "(declare-const pr_h (Array Addr Int))\n(declare-const pr_b Slice)\n(assert (= (slen pr_b) (- 1)))\n(assert (>= (len (bytes2str pr_h pr_b)) 0))\n",
+		"odd-substring-bounds":       "(declare-const pr_s Str)\n(assert (= (len pr_s) 3))\n(assert (>= (len (substr pr_s 2 1)) 0))\n(assert (>= (len (substr pr_s (- 1) 7)) 0))\n(assert (>= (at (substr pr_s 0 3) 5) 0))\n",
+		"non-ascii-chr":              "(assert (>= (len (chr 200)) 0))\n(assert (>= (len (chr (- 3))) 0))\n(assert (>= (at (chr 1114112) 0) 0))\n(assert (>= (len (chr 65)) 0))\n",
+	}
+	for n, body := range probes {
+		// probes keep the patterns: the point is that ordinary E-matching finds the contradiction at once
+		q := mk("", body)
+		_ = q
+		var sb strings.Builder
+		sb.WriteString("(set-logic ALL)\n")
+		sb.WriteString(basePrelude)
+		sb.WriteString(stringAxioms)
+		sb.WriteString(body)
+		sb.WriteString("(check-sat)\n")
+		out["probe."+n] = sb.String()
+	}
 	for _, name := range w.specOrder {
 		sf := w.specs[name]
 		if sf.Body == nil && len(sf.Axioms) > 0 {
